@@ -82,7 +82,69 @@ where
         }
         let proof2 = roundtrip(&proof, "opening proof", true)?;
         let bproof2 = roundtrip(&bproof, "batch proof", true)?;
-        let _ = (pp2, ck2);
+        // the deserialized keys report the degrees of the originals, and the deserialized parameters trim to the
+        // same keys
+        {
+            use ark_poly_commit::{PCCommitterKey, PCUniversalParams, PCVerifierKey};
+            for (m, k) in ck2.iter().enumerate() {
+                if k.max_degree() != w.ck.max_degree() || k.supported_degree() != w.ck.supported_degree() {
+                    return Err(Verdict::viol("key-report-differs-after-roundtrip", format!("committer key (mode {}): max/supported degree {}/{} became {}/{}", m, w.ck.max_degree(), w.ck.supported_degree(), k.max_degree(), k.supported_degree())));
+                }
+            }
+            for (m, k) in vk2.iter().enumerate() {
+                if k.max_degree() != w.vk.max_degree() || k.supported_degree() != w.vk.supported_degree() {
+                    return Err(Verdict::viol("key-report-differs-after-roundtrip", format!("verifier key (mode {}): max/supported degree {}/{} became {}/{}", m, w.vk.max_degree(), w.vk.supported_degree(), k.max_degree(), k.supported_degree())));
+                }
+            }
+            for (m, p) in pp2.iter().enumerate() {
+                if p.max_degree() != w.pp.max_degree() {
+                    return Err(Verdict::viol("key-report-differs-after-roundtrip", format!("universal parameters (mode {}): max_degree {} became {}", m, w.pp.max_degree(), p.max_degree())));
+                }
+            }
+        }
+        // the deserialized committer key is used: committing and opening with it (same RNG stream) gives the
+        // commitments and the proof the original key gives, byte for byte
+        {
+            let ser = |x: &dyn Fn(&mut Vec<u8>)| -> Vec<u8> { let mut b = vec![]; x(&mut b); b };
+            let sym_rng = cfg.sym_rng;
+            let reference = {
+                let mut r = StdRng::seed_from_u64(cfg.seed + 900);
+                catch(|| with_sym_rng(false, || PCOf::<S>::commit(&w.ck, &w.lps, Some(&mut r)))).ok().and_then(|x| x.ok())
+            };
+            let _ = sym_rng;
+            if let Some((c_ref, st_ref)) = reference {
+                let pt = w.points[0].1.clone();
+                let p_ref = {
+                    let mut r = StdRng::seed_from_u64(cfg.seed + 901);
+                    catch(|| with_sym_rng(false, || PCOf::<S>::open(&w.ck, idx.iter().map(|i| &w.lps[*i]), idx.iter().map(|i| &c_ref[*i]), &pt, &mut sp0.clone(), idx.iter().map(|i| &st_ref[*i]), Some(&mut r)))).ok().and_then(|x| x.ok())
+                };
+                for (m, k) in ck2.iter().enumerate() {
+                    let mut r = StdRng::seed_from_u64(cfg.seed + 900);
+                    let again = catch(|| with_sym_rng(false, || PCOf::<S>::commit(k, &w.lps, Some(&mut r)))).ok().and_then(|x| x.ok());
+                    let (c2, st2) = match again {
+                        Some(x) => x,
+                        None => return Err(Verdict::viol("decision-differs-after-roundtrip", format!("commit succeeds with the original committer key and fails with the deserialized one (mode {})", m))),
+                    };
+                    for i in 0..c_ref.len() {
+                        if ser(&|b| { let _ = c_ref[i].commitment().serialize_compressed(b); }) != ser(&|b| { let _ = c2[i].commitment().serialize_compressed(b); }) {
+                            return Err(Verdict::viol("decision-differs-after-roundtrip", format!("commitment {} made with the deserialized committer key (mode {}) differs from the one made with the original key", i, m)));
+                        }
+                    }
+                    if let Some(p_ref) = &p_ref {
+                        let mut r = StdRng::seed_from_u64(cfg.seed + 901);
+                        let p2 = catch(|| with_sym_rng(false, || PCOf::<S>::open(k, idx.iter().map(|i| &w.lps[*i]), idx.iter().map(|i| &c2[*i]), &pt, &mut sp0.clone(), idx.iter().map(|i| &st2[*i]), Some(&mut r)))).ok().and_then(|x| x.ok());
+                        match p2 {
+                            Some(p2) => {
+                                if ser(&|b| { let _ = p_ref.serialize_compressed(b); }) != ser(&|b| { let _ = p2.serialize_compressed(b); }) {
+                                    return Err(Verdict::viol("decision-differs-after-roundtrip", format!("the opening proof made with the deserialized committer key (mode {}) differs from the one made with the original key", m)));
+                                }
+                            }
+                            None => return Err(Verdict::viol("decision-differs-after-roundtrip", format!("open succeeds with the original committer key and fails with the deserialized one (mode {})", m))),
+                        }
+                    }
+                }
+            }
+        }
         // decisions with deserialized verifier key, commitments and proofs equal the originals,
         // on the honest claim and on one tampered claim, for single and batched verification
         let pt = w.points[0].1.clone();
